@@ -47,6 +47,4 @@ require (
 	modernc.org/sqlite v1.37.0 // indirect
 )
 
-require golang.org/x/sys v0.31.0 // indirect
-
 replace example.com/scion-time => /repo
